@@ -7,8 +7,8 @@
 #  4. removes the worktree.
 id=$1; sd=${2:-SEED}; shift; shift
 src=/tmp/seed-$id/$sd
-wt=/tmp/sv-$id
-out=/verif/seeded/$id${sd#SEED}
+wt=/tmp/sv-$id-$sd
+sfx=${sd#SEED}; out=/verif/seeded/$id${sfx:+-$sfx}
 mkdir -p $out
 git -C /repo worktree remove --force $wt 2>/dev/null
 git -C /repo worktree add -q --detach $wt HEAD || exit 1
